@@ -3,8 +3,10 @@
    quiescence it holds the cluster's objects of the informer's scope (client-go delivers
    every change: oracle); (2) monitor.Snapshot of the caches; (3) UpdateSnapshots.
    Findings: F26 (ghost object: C02_refuted_F26), F25 (unnamed kubernetes bindings of one
-   group share the default name: C02_refuted_F25); F13 (repeated names) is repaired. *)
-From Verif Require Import Common C02_Model C02_Spec C02_Proofs.
+   group share the default name: C02_refuted_F25); F13 (repeated names) is repaired.
+   (4) bindings with namespace.labelSelector: the informer set follows the set of matching
+   namespaces (theorems C02_dyn_...); the namespace-level ghost (C02_dyn_refuted_nsghost) is reported. *)
+From Verif Require Import Common C02_Model C02_Spec C02_Proofs C02_DynProofs.
 From Verif Require C01_Model C01_Spec C01_Proofs.
 Open Scope N_scope.
 
@@ -63,6 +65,39 @@ Theorem C02_refuted_F25 : T_grp false = true /\ (let (k, o) := grp false in P_gr
                           /\ (let (k, o) := grp true in P_grp k o false) = true.
 Proof. exact group_refuted. Qed.
 Print Assumptions C02_refuted_F25.
+
+(* (4) dynamic namespaces (namespace.labelSelector).  For every name selection, every initial
+   cluster and every history of object changes (objects moving between namespaces included),
+   namespaces created / relabelled / deleted - those found by the initial list of a start or a
+   restart and those that started matching later alike - and operator restarts: the snapshot
+   read at EACH quiet point is exactly the objects whose namespace carries the label THEN and
+   whose name is selected, each once, ordered by namespace and name ... *)
+Definition C02_dyn_full_statement : Prop :=
+  forall i, P_dyn i (dyn_views i) false = true.
+
+Theorem C02_dyn_snapshots_are_matching_partial : forall i, T_nsghost i = false ->
+  P_dsnaps i (dyn_snapshots i) = true.
+Proof. exact dyn_snapshots_are_matching. Qed.
+Print Assumptions C02_dyn_snapshots_are_matching_partial.
+
+(* ... each entry showing the CURRENT state of its object as the binding's jqFilter /
+   keepFullObjectsInMemory setting shows it *)
+Theorem C02_dyn_views_are_matching_partial : forall i, T_nsghost i = false ->
+  P_dyn i (dyn_views i) false = true.
+Proof. exact dyn_views_are_matching. Qed.
+Print Assumptions C02_dyn_views_are_matching_partial.
+
+(* the exception: a namespace found by CreateInformers' initial namespace list that stops
+   matching before Start keeps its informers (the namespace informer never reports it) *)
+Theorem C02_dyn_refuted_nsghost : exists i, T_nsghost i = true /\ P_dyn i (dyn_views i) false = false.
+Proof. exact nsghost_refuted. Qed.
+Print Assumptions C02_dyn_refuted_nsghost.
+
+Example C02_dyn_hyp_met :
+  let i := mkDynIn [2; 2] [(1, 2, 1); (2, 2, 5)] [(1, true); (2, false)] None
+                   [DNs 1 false; DRead; DNs 2 true; DObj OModify (2, 2, 16); DRestart; DRead; DNsDel 2; DRead] true false in
+  T_nsghost i = false /\ dyn_views i = [[]; [(2, 2, Some 6, None)]; []].
+Proof. vm_compute. split; reflexivity. Qed.
 
 Example C02_hyp_met :
   let i := mkSnapIn [1; 2; 1] [3; 3] [(1, 3, 1)] [(OCreate, (2, 3, 1)); (OModify, (1, 3, 2)); (OCreate, (3, 3, 5))] None true true true in
